@@ -18,7 +18,13 @@ const modelMax = 5000
 func emitCase(emit Emit, c editops.ECase, withModel bool) {
 	emitTables(emit, c)
 	toks := editops.Tokens(c.Ops)
-	emit("P", "p_c03", append([]string{H(c.Img), c.Expect, c.Touched}, toks...)...)
+	if c.PadPat {
+		// a pattern that also selects pad files (e.g. "f.*"): the spec does not know them, so no
+		// expectation; the model does (correspondence below), validity by the C02 oracle
+		emit("P", "p_c02", append([]string{H(c.Img)}, toks...)...)
+	} else {
+		emit("P", "p_c03", append([]string{H(c.Img), c.Expect, c.Touched}, toks...)...)
+	}
 	if withModel && len(c.Img) <= modelMax {
 		emit("C", "edit", append([]string{H(c.Img)}, toks...)...)
 	}
@@ -71,7 +77,7 @@ func gen(r *Rng, tier string, emit Emit) {
 				hs = append(hs, H([]byte(x)))
 			}
 			emit("C", "findx", H(img), H([]byte(pat)), strings.Join(hs, ","))
-			emit("P", "p_find_full", H(img), H([]byte(pat)), H([]byte(editops.FindExpect(reg, pat))))
+			emit("P", "p_find_full", H(img), H([]byte(pat)), H([]byte(editops.FindExpect(reg, img, pat))))
 		}
 	}
 	// GUID text form
